@@ -125,7 +125,7 @@ def slice(ctx: fw.Ctx) -> fw.Outcome:
             real = c.instrument_tracks.get(ins[i], {}).get(dif[d])
             nts = [n.timestamp for n in real.note_events] if real else []
             nticks = ([n.tick for n in real.note_events] if real else []) or [0]
-            form = rng.choice(["none", "tick", "ticks", "time", "times", "days"])
+            form = rng.choice(["none", "tick", "ticks", "time", "times", "days", "negtick"])
             a = rng.choice(nticks + [0, max(nticks) + 5, rng.randint(0, max(nticks) + 50)])
             b = rng.choice(nticks + [a, a + 1, max(nticks) + 5, rng.randint(0, max(nticks) + 500)])
             args, sb, eb = (), "~", "~"
@@ -140,6 +140,11 @@ def slice(ctx: fw.Ctx) -> fw.Outcome:
                 ta = rng.choice(nts + [timedelta(0), timedelta(microseconds=rng.randint(0, 10**7))])
                 tb = rng.choice(nts + [ta, ta + US, timedelta(microseconds=rng.randint(0, 10**8))])
                 args, sb, eb = (ta, tb), f"u{ta // US}", f"u{tb // US}"
+            if form == "negtick":
+                # a bound before the map has no time: ValueError whatever the other bound
+                neg = -rng.choice([1, 2, 192, rng.randint(1, 5000)])
+                args = rng.choice([(neg,), (neg, b), (0, neg), (neg, neg - 5)])
+                sb, eb = f"t{args[0]}", (f"t{args[1]}" if len(args) > 1 else "~")
             if form == "days":
                 ta = rng.choice([timedelta(0), timedelta(seconds=rng.randint(0, 100))])
                 tb = ta + timedelta(days=rng.choice([1, 1, 2, 3]), seconds=rng.choice([0, 0, 5, 4000]))
